@@ -17,11 +17,13 @@ from ..world import mk
 EARLY = ("ST",)
 
 
-def run_session(name_variant: str, expected: bool, app: tuple[str, ...], cuts: tuple[int, ...], probe_send: bool = False) -> dict[str, Any]:
+def run_session(name_variant: str, expected: bool, app: tuple[str, ...], cuts: tuple[int, ...], probe_send: bool = False,
+                recycled: bool = False) -> dict[str, Any]:
     """One fresh session (fresh client ephemeral key) whose server stream is cut at ``cuts``; () = one chunk, (-1,) = byte-wise."""
     from aioesphomeapi.core import APIConnectionError, BadNameAPIError
 
     exp = EXPECTED if expected else None
+    Session.RECYCLED[0] = recycled
     s = Session(name_variant, exp, app, early=EARLY)
     w = s.w
     try:
@@ -56,6 +58,9 @@ def run_session(name_variant: str, expected: bool, app: tuple[str, ...], cuts: t
                 break
             s.deliver(stream[pos:q])
             pos = q
+            if s.deliver_error is not None:
+                viol = f"a transport that recycles its receive buffer: delivering bytes [{pos}] failed with {s.deliver_error}"
+                break
             if reject:
                 if pos >= ends[0]:
                     break
@@ -132,6 +137,13 @@ def run(tier: str, seed: int) -> Result:
     jobs.append(("equal", True, app, (-1,), True))
     for c in positions:
         jobs.append(("equal", True, app, (c,), True))
+    # the same single cuts, byte-wise delivery and 3-byte reads through a transport that recycles one bytearray receive buffer
+    jobs.append(("equal", True, app, (), False, True))
+    jobs.append(("equal", True, app, (-1,), False, True))
+    for c in positions:
+        jobs.append(("equal", True, app, (c,), False, True))
+    jobs.append(("equal", True, app, tuple(range(3, n, 3)), False, True))
+    jobs.append(("absent", False, app, tuple(range(5, n, 5)), False, True))
     pair_pos = positions if (not q or n <= 230) else sorted(set(
         [p for p in positions if any(abs(p - e) <= 6 for e in ends)] + list(range(1, ends[1] + 8)) + positions[::3]))
     for a, b in itertools.combinations(pair_pos, 2):
